@@ -7,6 +7,8 @@ class HarnessJobserver:
     """A token pipe owned by the harness.  `slots` = total parallelism offered (the child holds one
     implicit token, so slots-1 bytes are put into the pipe)."""
 
+    made = 0
+
     def __init__(self, slots, withheld=0, cheat=False):
         self.slots = slots
         self.cr = self.cw = None
@@ -33,7 +35,18 @@ class HarnessJobserver:
             os.set_inheritable(self.cw, True)
 
     def env(self):
-        e = {'MAKEFLAGS': ' -j --jobserver-auth=%d,%d --jobserver-fds=%d,%d' % (self.r, self.w, self.r, self.w)}
+        # the spellings GNU make has used over time (redo must find its pipe in each of them)
+        HarnessJobserver.made += 1
+        k = HarnessJobserver.made % 4
+        if k == 0:
+            mf = ' -j --jobserver-auth=%d,%d --jobserver-fds=%d,%d' % (self.r, self.w, self.r, self.w)
+        elif k == 1:
+            mf = '--jobserver-auth=%d,%d' % (self.r, self.w)
+        elif k == 2:
+            mf = 'kw -j%d --jobserver-fds=%d,%d -- V=1' % (self.slots, self.r, self.w)
+        else:
+            mf = ' -j --jobserver-fds=%d,%d --jobserver-auth=%d,%d -Otarget' % (self.r, self.w, self.r, self.w)
+        e = {'MAKEFLAGS': mf}
         if self.cr is not None:
             e['REDO_CHEATFDS'] = '%d,%d' % (self.cr, self.cw)
         return e
